@@ -5,10 +5,10 @@ use std::sync::atomic::{AtomicU64, Ordering};
 
 /// binaries built from the tree by `./check` (overridable for trials on a copy of the repository)
 pub fn mlar_path() -> String {
-    std::env::var("VERIF_MLAR").unwrap_or_else(|_| "/verif/target/repo/debug/mlar".to_string())
+    std::env::var("VERIF_MLAR").unwrap_or_else(|_| format!("{}/target/repo/debug/mlar", crate::util::root()))
 }
 pub fn libmla_path() -> String {
-    std::env::var("VERIF_LIBMLA").unwrap_or_else(|_| "/verif/target/repo/debug/libmla.so".to_string())
+    std::env::var("VERIF_LIBMLA").unwrap_or_else(|_| format!("{}/target/repo/debug/libmla.so", crate::util::root()))
 }
 
 static COUNTER: AtomicU64 = AtomicU64::new(0);
@@ -20,7 +20,7 @@ pub struct Scratch {
 impl Scratch {
     pub fn new(tag: &str) -> Scratch {
         let n = COUNTER.fetch_add(1, Ordering::Relaxed);
-        let path = PathBuf::from(format!("/verif/.work/{}/{}-{}", std::process::id(), tag, n));
+        let path = PathBuf::from(format!("{}/.work/{}/{}-{}", crate::util::root(), std::process::id(), tag, n));
         let _ = std::fs::remove_dir_all(&path);
         std::fs::create_dir_all(&path).expect("scratch dir");
         Scratch { path }
@@ -36,7 +36,7 @@ impl Drop for Scratch {
 }
 
 pub fn cleanup_process_dir() {
-    let _ = std::fs::remove_dir_all(format!("/verif/.work/{}", std::process::id()));
+    let _ = std::fs::remove_dir_all(format!("{}/.work/{}", crate::util::root(), std::process::id()));
 }
 
 pub fn mlar(args: &[&std::ffi::OsStr], cwd: &Path) -> std::io::Result<Output> {
